@@ -42,6 +42,16 @@ func tid(t types.Type) string {
 		return id
 	}
 	id := types.TypeString(t, nil)
+	// pointers / slices of alias types are named after the aliased type (method sets are keyed by it)
+	if p, ok := t.(*types.Pointer); ok {
+		if _, isAlias := p.Elem().(*types.Alias); isAlias {
+			id = "*" + tid(p.Elem())
+		}
+	} else if s, ok := t.(*types.Slice); ok {
+		if _, isAlias := s.Elem().(*types.Alias); isAlias {
+			id = "[]" + tid(s.Elem())
+		}
+	}
 	typeIDs[t] = id
 	if _, ok := typeTab[id]; ok {
 		return id
